@@ -139,7 +139,7 @@ let engine_of vflags late tree = function
       let c = flatten late tree in
       (EFast, c, fast_step (bits vflags 3) c)
   | _ -> failwith "engine"
-let variant_of s = { sz_delay_lost = bits s 0; sz_stable_lost = bits s 1; sz_final_lost = bits s 2; sz_queue_before_md5 = bits s 3; sz_undeclared_restored = bits s 4 }
+let variant_of s = { sz_delay_lost = bits s 0; sz_stable_lost = bits s 1; sz_final_lost = bits s 2; sz_queue_before_md5 = bits s 3; sz_undeclared_restored = bits s 4; sz_skip_value = (fun _ -> false) }
 
 let handle (line:string) : string =
   match parse_sexp line with
